@@ -76,17 +76,37 @@ def compoundAllB : Blk → Bool
 def ssaVisibleB (p : Blk) : Bool :=
   (leavesB p).all (fun l => (l.reads ++ l.writes).all (fun x => l.vals.contains x))
 
-/-- args: {"body": block, "fixed": bool} -> {"out": block, "low": block after snax-to-func, "nodup": bool, "compoundAll": bool, "ssaVisible": bool} -/
+def pairOfJson (j : Json) : Except String (Nat × Nat) := do
+  let a ← arr j
+  match a.toList with
+  | [x, y] => return (← nat x, ← nat y)
+  | _ => throw "bad pair"
+
+/-- every buffer an operation touches is the root of one of its SSA values -/
+def rootVisibleB (rt : Nat → Nat) (p : Blk) : Bool :=
+  (leavesB p).all (fun l => (l.reads ++ l.writes).all (fun x => l.vals.any (fun v => rt v == x)))
+
+def globalsInertB (p : Blk) : Bool :=
+  (leavesB p).all (fun l => l.cls != Cls.all || (l.reads.isEmpty && l.writes.isEmpty))
+
+/-- args: {"body": block, "fix": "orig" | "f17" | "all", "views": [[view result, source]...]}
+ -> {"out": block, "low": block after snax-to-func, "nodup", "compoundAll", "ssaVisible", "rootVisible", "globalsInert": bool} -/
 def insert : Handler := fun j => do
   let items ← listOf itemOfJson (← field j "body")
   let p ← blkOfItems items
-  let fixed ← bool (← field j "fixed")
+  let fx ← match (← str (← field j "fix")) with
+    | "orig" => pure Fix.orig | "f17" => pure Fix.f17 | "all" => pure Fix.all
+    | s => throw s!"bad fix {s}"
+  let views ← listOf pairOfJson (← field j "views")
+  let rt := rootOf views views.length
   return Json.mkObj [
-    ("out", Json.arr (blkToJsonList (insertBarriers fixed p)).toArray),
-    ("low", Json.arr (blkToJsonList (lowerB (insertBarriers fixed p))).toArray),
+    ("out", Json.arr (blkToJsonList (insertBarriers fx rt p)).toArray),
+    ("low", Json.arr (blkToJsonList (lowerB (insertBarriers fx rt p))).toArray),
     ("nodup", Json.bool (decide (idsB p).Nodup)),
     ("compoundAll", Json.bool (compoundAllB p)),
-    ("ssaVisible", Json.bool (ssaVisibleB p))]
+    ("ssaVisible", Json.bool (ssaVisibleB p)),
+    ("rootVisible", Json.bool (rootVisibleB rt p)),
+    ("globalsInert", Json.bool (globalsInertB p))]
 
 def handlers : List (String × Handler) :=
   [("c13.insert", insert)]
